@@ -94,6 +94,13 @@ def part1(cfg, src):
     return None
 
 
+def fallback_ok(md):
+    """the property's own side condition: the fallback rules that guarantee progress stay on (the merging
+    rules fragments_join / text_join may be off - the streams are then compared unmerged)"""
+    a = md.get_active_rules()
+    return "paragraph" in a["block"] and "text" in a["inline"] and all(x in a["core"] for x in ("normalize", "block", "inline"))
+
+
 def part2(cfg, src):
     for ext, trigger in (("table", "|"), ("strikethrough", "~~")):
         if trigger in src:
@@ -105,7 +112,7 @@ def part2(cfg, src):
         off["disable"] = [x for x in cfg["disable"] if x != ext] + [ext]
         off["enable"] = [x for x in cfg["enable"] if x != ext]
         m1, m0 = configs.make_md(on), configs.make_md(off)
-        if not supported(m1) or not supported(m0):
+        if not fallback_ok(m1) or not fallback_ok(m0):
             continue
         try:
             a, b = dump(guarded(m1.parse, src)), dump(guarded(m0.parse, src))
@@ -265,6 +272,11 @@ def run(ctx) -> int:
             if k % 2:
                 src = src.replace("|", "/").replace("~~", "~")
                 src += r.choice(["x\nfoo\n---\n", "- item\n  cont\n  :-:\n", "a\n-\n", "> q\n> :--\n", "a ~ b ~x~ `~~`?\n".replace("~~", "~")])
+            if k % 4 == 3:
+                # the merging rules off: whatever an extension's tokenizer pushes stays visible as a token of its own
+                cfg = dict(cfg, ruler2_off=["fragments_join"], disable=[x for x in cfg["disable"] if x != "text_join"] + ["text_join"],
+                           enable=[x for x in cfg["enable"] if x != "text_join"])
+                src = r.choice(["a~\n", "[label~](/url) tail\n", "> quoted~\n", "*em*~\n", "# h~\n", "a ~\n~ b\n", "x|\n"]) + (src if k % 8 == 3 else "")
             count["conservative"] += 1
             d = part2(cfg, src)
             if d:
